@@ -19,9 +19,9 @@ run_demo() {
 }
 WITH=$(run_demo)
 TESTS=$(timeout 1800 cargo test --workspace --offline --no-fail-fast 2>&1 | grep -E "^test result" | awk '{p+=$4; f+=$6} END {print p"/"f}')
-git stash -q
+git apply -R $OUT/patch.diff
 WITHOUT=$(run_demo)
-git stash pop -q
+git apply $OUT/patch.diff
 echo "demo_with_change_exit=$WITH demo_without_change_exit=$WITHOUT tests_with_change(passed/failed)=$TESTS"
 python3 - "$P$SUF" "$WITH" "$WITHOUT" "$TESTS" <<'PY'
 import json,sys,os
